@@ -112,7 +112,7 @@ def mc_configs(prop):
           ("gossip+merge", ["ev", "merge"], ([1, 2], [0, 1, 2]), [23], 1, [1], 1, 1, 0, (3, 3), [1]),
           ("gossip+merge, 2 contents", ["ev", "merge"], ([1, 2], [0, 1, 2]), [23], 2, [1], 1, 1, 0, (2, 3), [0, 1])]
     qr = [("queries", ["qry", "lq", "restart"], ([1, 2], [0, 1, 2]), [23], 1, [1, 2], 1, 1, 2, (3, 4), [0, 1])]
-    rs = [("restart+merge", ["ev", "merge", "restart"], ([1, 2], [0, 1, 2]), [23], 1, [1], 1, 1, 0, (3, 4), [1])]
+    rs = [("restart+merge", ["ev", "merge", "restart"], ([1, 2], [0, 1, 2]), [23], 1, [1], 1, 1, 0, (3, 3), [1])]
     if prop == "C05":
         return ev
     if prop == "C14":
@@ -193,6 +193,7 @@ def run_seq(ctx, prop, replay=None):
         nsteps += len(s)
         for st in s:
             kinds[st["a"]] = kinds.get(st["a"], 0) + 1
+    cand = []
     for (tid, line, clauses, tags) in rep.monitors:
         mine = sorted(c for c in clauses if c.startswith(pre))
         if not mine:
@@ -201,14 +202,18 @@ def run_seq(ctx, prop, replay=None):
         if seen.get(key, 0) >= 2:
             continue
         seen[key] = seen.get(key, 0) + 1
-        # confirmation: the same schedule executed a second time from scratch
-        t2 = execute(ctx, binary, [scheds[tid]], "re%d" % tid)
+        cand.append((tid, mine))
+    if cand:
+        # confirmation: the same schedules executed a second time from scratch (one driver run, one validation)
+        t2 = execute(ctx, binary, [scheds[tid] for (tid, _) in cand], "confirm")
         rep2 = vlib.validate(ctx, "Trace_SerfEvents", trace_cfg(), t2)
-        again = [m for m in rep2.monitors if set(m[2]) & set(mine)]
-        if again:
-            viol.append({"clauses": mine, "tags": sorted(again[0][3]), "schedule": scheds[tid][2], "b": scheds[tid][0], "snap": scheds[tid][1]})
-        else:
-            ctx.log("report %s on trace %d not reproduced; ignored" % (mine, tid))
+        for n, (tid, mine) in enumerate(cand):
+            again = [m for m in rep2.monitors if m[0] == n and set(m[2]) & set(mine)]
+            if again:
+                viol.append({"clauses": mine, "tags": sorted(again[0][3]), "schedule": scheds[tid][2], "b": scheds[tid][0],
+                             "snap": scheds[tid][1]})
+            else:
+                ctx.log("report %s on trace %d not reproduced; ignored" % (mine, tid))
     cov = {
         "states": mc[0] if mc else 1, "transitions": mc[1] if mc else 1, "exhaustive": bool(mc),
         "model_constants": "MAX=%d (stands for 2^64-1), buffer sizes 1..4 (chosen at Init); exhaustive configs: %s; simulation: times "
@@ -297,7 +302,7 @@ def conc_programs(ctx):
     ]
     vals = [0, 1, 2, 3, 5, MAX - 1, MAX]
     extra = []
-    n = 60 if ctx.thorough() else 4
+    n = 40 if ctx.thorough() else 4
     for _ in range(n):
         nt = rng.choice([2, 2, 3]) if ctx.thorough() else 2
         th = []
@@ -318,8 +323,8 @@ def run_conc(ctx, binary, progs, tag, maxpre, budget, nrand, choices=None):
     with open(pp, "w") as f:
         for i, p in enumerate(progs):
             rec = {"id": i, "prog": p}
-            if choices is not None:
-                rec["choices"] = choices
+            if choices is not None and choices[i] is not None:
+                rec["choices"] = choices[i]
             f.write(json.dumps(rec) + "\n")
     tp = os.path.join(ctx.scratch, "ctrace-%s.ndjson" % tag)
     rc, out = vlib.run_driver(ctx, binary, ["-mode", "conc", "-in", pp, "-out", tp, "-max", str(MAX), "-maxpre", str(maxpre),
@@ -336,7 +341,7 @@ def run_c06(ctx, replay=None):
     fixed = None
     if replay:
         v = json.load(open(replay))
-        progs, fixed = [v["prog"]], v.get("choices")
+        progs, fixed = [v["prog"]], [v.get("choices")]
     else:
         tot_d = tot_g = 0
         cfgs = [(2, 2, 2, 0, [1], "2 callers x 2 calls (UserEvent/Query)"),
@@ -360,7 +365,7 @@ def run_c06(ctx, replay=None):
             ctx.log("note: a not-later violation through the wrap is not reachable in the small strict config")
         mc = (tot_d, tot_g, "; ".join(c[5] for c in cfgs))
         progs = conc_programs(ctx)
-    maxpre, budget, nrand = (2, 400, 40) if thorough else (1, 120, 12)
+    maxpre, budget, nrand = (2, 300, 40) if thorough else (1, 120, 12)
     tp, summary = run_conc(ctx, binary, progs, "a", maxpre, budget, nrand, choices=fixed)
     ctx.log("driver:", summary)
     rep = vlib.validate(ctx, "Trace_SerfEventsConc", CONC_TRACE_CFG, tp, timeout=3000)
@@ -374,21 +379,25 @@ def run_c06(ctx, replay=None):
             choices_of[cur] = []
         else:
             choices_of[cur] += ln["obs"]["ch"]
-    viol, per_key = [], {}
+    viol, per_key, cand = [], {}, []
     for (tid, line, clauses, tags) in rep.monitors:
         key = ",".join(sorted(clauses)) + "|" + ",".join(sorted(tags))
         if per_key.get(key, 0) >= 2:
             continue
         per_key[key] = per_key.get(key, 0) + 1
-        # confirmation: the same schedule (the scheduler's choice at every step) executed again from scratch
-        t2, _ = run_conc(ctx, binary, [prog_of[tid]], "re%d" % tid, 0, 1, 0, choices=choices_of[tid])
+        cand.append((tid, clauses, tags))
+    if cand:
+        # confirmation: the same schedules (the scheduler's choice at every step) executed again from scratch
+        t2, _ = run_conc(ctx, binary, [prog_of[tid] for (tid, _, _) in cand], "confirm", 0, 1, 0,
+                         choices=[choices_of[tid] for (tid, _, _) in cand])
         rep2 = vlib.validate(ctx, "Trace_SerfEventsConc", CONC_TRACE_CFG, t2)
-        again = [m for m in rep2.monitors if set(m[2]) & set(clauses) and set(m[3]) == set(tags)]
-        if again:
-            viol.append({"clauses": sorted(clauses), "tags": sorted(tags), "schedule": prog_of[tid], "prog": prog_of[tid],
-                         "choices": choices_of[tid], "steps": thread_sequence(t2, again[0][0])})
-        else:
-            ctx.log("report %s for program %s not reproduced; ignored" % (clauses, prog_of[tid]))
+        for n, (tid, clauses, tags) in enumerate(cand):
+            again = [m for m in rep2.monitors if m[0] == n and set(m[2]) & set(clauses) and set(m[3]) == set(tags)]
+            if again:
+                viol.append({"clauses": sorted(clauses), "tags": sorted(tags), "schedule": prog_of[tid], "prog": prog_of[tid],
+                             "choices": choices_of[tid], "steps": thread_sequence(t2, n)})
+            else:
+                ctx.log("report %s for program %s not reproduced; ignored" % (clauses, prog_of[tid]))
     new, known = vlib.classify(ctx.prop, viol)
     cov = {
         "states": mc[0] if mc else 1, "transitions": mc[1] if mc else 1, "exhaustive": bool(mc),
